@@ -73,7 +73,7 @@ Eager ==
 TMapWG ==
   /\ Is("MapWG")
   /\ LET ws == SeqToSet(Ev.wfs) IN
-       /\ MapWG(Ev.g, ws)
+       /\ IF Has(Ev, "sampled") /\ Ev.sampled = 1 THEN MapWGSampled(Ev.g, ws) ELSE MapWG(Ev.g, ws)
        /\ curId' = curId @@ [w \in ws |-> 0]
   /\ UNCHANGED <<ref, reqs, pendEnd, pendDone>>
 
@@ -144,6 +144,7 @@ TMemRsp ==
   /\ UNCHANGED <<curId, ref, reqs, pendEnd, pendDone>>
 
 Ending(w) == w \in internal /\ cur[w].k = "end"
+g_owed(w) == wgOf[w] \in pendDone   \* a repeated completion event is only legitimate while the message is owed
 IsLast(w) == \A x \in Others(w) : st[x] = "Done"
 Frozen == UNCHANGED <<wgOf, st, cur, n, outV, outS, internal, bbuf, vq, sq, sent, aceOut, reached, passed>>
 
@@ -173,10 +174,24 @@ TWGDone ==
      ELSE IF sent[g] >= 1
      THEN Flag("CompletionOnce") /\ Frozen /\ UNCHANGED <<pendEnd, pendDone>>
      ELSE LET live == {w \in WfsOf(g) : st[w] # "Done"} IN
-          IF Cardinality(live) = 1 /\ (\A w \in live : Ending(w) /\ TruthS(w) = 0)
-          THEN /\ \E w \in live : EvalEndpgm(w) /\ pendEnd' = pendEnd \cup {w}
+          IF Cardinality(live) = 1 /\ (\A w \in live : (Ending(w) /\ TruthS(w) = 0) \/ st[w] = "Sampled")
+          THEN /\ \E w \in live : (IF st[w] = "Sampled" THEN SampledEnd(w) ELSE EvalEndpgm(w)) /\ pendEnd' = pendEnd \cup {w}
                /\ UNCHANGED pendDone
           ELSE Flag("CompletionAfterLast") /\ Frozen /\ UNCHANGED <<pendEnd, pendDone>>
+  /\ UNCHANGED <<curId, ref, reqs>>
+
+\* WfCompletionEvent handled (CU event hook).  The handler runs again for the last wavefront while the
+\* completion message does not fit in the port: only the first handling ends the wavefront.
+TSampledEnd ==
+  /\ Is("SampledEnd") /\ Ev.w \in Wfs
+  /\ LET w == Ev.w IN
+     IF w \in pendEnd
+     THEN pendEnd' = pendEnd \ {w} /\ UNCHANGED <<vars, pendDone>>
+     ELSE IF st[w] = "Done"
+     THEN g_owed(w) /\ UNCHANGED <<vars, pendDone, pendEnd>>
+     ELSE /\ SampledEnd(w)
+          /\ pendDone' = IF IsLast(w) THEN pendDone \cup {wgOf[w]} ELSE pendDone
+          /\ UNCHANGED pendEnd
   /\ UNCHANGED <<curId, ref, reqs>>
 
 TAceTake == Is("AceTake") /\ EnvTakeACE /\ UNCHANGED aux
@@ -206,7 +221,7 @@ Fresh ==
 TReset == Is("Reset") /\ Fresh
 
 Events == (TMapWG \/ TRef \/ TIssue \/ TInstEnd \/ TMemReq \/ TMemRsp \/ TWfEnd \/ TWGDone
-           \/ TAceTake \/ TQuiesce \/ TFinal \/ TReset) /\ UNCHANGED rejects
+           \/ TAceTake \/ TSampledEnd \/ TQuiesce \/ TFinal \/ TReset) /\ UNCHANGED rejects
 
 \* Tolerant mode (one TLC run reports every sub-trace the specification refuses): a sub-trace in which a
 \* rule was flagged, or whose next line no action explains, is given up and validation resumes at the next Reset.
